@@ -90,15 +90,16 @@ def h_dt(defs, main, N, mode, style, twice=False):
     return body
 
 
-def h_const(txt_mod, consts, txt_inl, N, mode, f):
+def h_const(txt_mod, consts, txt_inl, N, mode, f, unit=None, period=None):
     f = T(f)
     vs = sorted(variables(f))
 
     def body(env):
         A = env.A
         kind = 'offline' if mode == 'offline' else 'combined'
-        sm = dt.make_spec(kind, txt_mod, vs, consts=[tuple(c) for c in consts], pastify=(mode == 'pastified'))
-        si = dt.make_spec(kind, txt_inl, vs, pastify=(mode == 'pastified'))
+        pk = dict(unit=unit, period=tuple(period) + (0.1,)) if period else {}
+        sm = dt.make_spec(kind, txt_mod, vs, consts=[tuple(c) for c in consts], pastify=(mode == 'pastified'), **pk)
+        si = dt.make_spec(kind, txt_inl, vs, pastify=(mode == 'pastified'), **pk)
         w = dt.trace(env, vs, N)
         if mode == 'offline':
             gm = [p[1] for p in dt.offline(sm, w, N)]
@@ -225,6 +226,15 @@ def obligations(tier, rng):
         fut = refsem.has_future(f)
         for mode in ['offline'] + (['pastified'] if fut else ['online', 'pastified']):
             out.append(ob('C09', 'const', 'const/%s/%s' % (mode, tm), txt_mod=tm, consts=cs, txt_inl=ti, N=N, mode=mode, f=f))
+    # fractional constants as bounds, written in a coarser unit than the default unit of the specification
+    for unit, per in (('ns', (500, 'ns')), ('us', (500, 'ns')), ('ns', (500, 'us')), ('ms', (500, 'us')), ('s', (500, 'ms'))):
+        cu = {'ns': 'us', 'us': 'ms', 'ms': 's'}[per[1]]
+        for tm, ti, f in [('out = once[a %s,b %s]((x) + (c))' % (cu, cu), 'out = once[0.5%s,1.5%s]((x) + (1.5))' % (cu, cu), ('once_t', ('add', X, C15), 1, 3)),
+                          ('out = (x) until[a %s,b %s] ((y) - (c))' % (cu, cu), 'out = (x) until[0.5%s,1.5%s] ((y) - (1.5))' % (cu, cu), ('until_t', X, ('sub', Y, C15), 1, 3))]:
+            cs = [['c', 'float', '1.5'], ['a', 'float', '0.5'], ['b', 'float', '1.5']]
+            for mode in ['offline'] + (['pastified'] if refsem.has_future(f) else ['online']):
+                out.append(ob('C09', 'const', 'const-frac/%s/unit=%s/P=%d%s/%s' % (mode, unit, per[0], per[1], tm), txt_mod=tm, consts=cs, txt_inl=ti, N=N, mode=mode, f=f,
+                              unit=unit, period=list(per)))
     # dense time
     ddefs = [('once_t', X, 0, 1), ('once', X), ('not', X), ('since', X, Y), ('geq', X, C15), ('historically_t', X, 1, 2)]
     dmains = [('not', P), ('or', P, ('once', P)), ('once', P), ('and', P, P), ('historically', ('not', P))]
